@@ -422,11 +422,9 @@ def rule_sc1(ctx: Ctx):
         r.sample({"config": cfg, "next": sorted(map(list, sk_mux_next)), "completed": sorted(map(list, sk_mux_comp))})
     # AG-3b for scan: the plain sibling decides 'no accumulator yet' by a flag of its own (or a private marker), never by looking at
     # the accumulator, which holds user data (an accumulator may legitimately be None / False / 0)
-    init_false = set()
+    from .common import subscribe_inits
     sfn = obs.subscribe_fn
-    for s in sfn.body:
-        if isinstance(s, ast.Assign) and len(s.targets) == 1 and isinstance(s.targets[0], ast.Name) and isinstance(s.value, ast.Constant) and s.value.value is False:
-            init_false.add(s.targets[0].id)
+    init_false = {name for name, v in subscribe_inits(obs).items() if isinstance(v, ast.Constant) and v.value is False}
     for ospec in (ospec_next, ospec_comp):
         for cfg in valuations(ctx.space(ospec)):
             for p in ctx.paths(ospec, None, cfg):
